@@ -20,7 +20,8 @@ CHECKS = {
     "C01": C("custom HIR/MIR rules over rustc_private facts: who-may-mutate (K1), value provenance (K3), W3C pseudo-code vocabulary coverage (K12)",
              "the configuration has exactly three writers; the values added/deleted are the sorted entry/exit sets; every isDescendant call in the "
              "entry/exit-set procedures has the argument roles of the W3C algorithm; history states never reach the entry set; OrderedSet has set "
-             "semantics; the 8 entry/exit-set procedures cover the vocabulary of their pseudo-code.",
+             "semantics; the 8 entry/exit-set procedures cover the vocabulary of their pseudo-code; the nine state-kind predicates have the audited truth "
+             "table over the six kinds of state (abstract evaluation).",
              "that every reachable configuration of every document is legal (behaviour; rests on the W3C algorithm itself).", "§5 C01"),
     "C02": C("custom HIR/MIR rules: spec vocabulary coverage (K12), comparator tables by abstract evaluation (K4), guard/first-match shape (K2), determinism query over the call-graph region (K9)",
              "selection iterates atomic states in document order, state before ancestors, transitions in document order, first enabled wins; the five "
@@ -35,12 +36,12 @@ CHECKS = {
     "C04": C("custom HIR rules: dispatch/pairing tables (K4), who-compares-qualified-names (K1), raw-slice taint (K8), doc_id provenance (K1/K2)",
              "every element constant is dispatched and every executable-content region is closed with the tag it was opened with; allowed-parent tables are "
              "sibling-consistent; names are compared through local_name() only; raw document slices pass an unescape before being stored; doc ids are drawn once "
-             "per declaration in the start handler; a forward-referenced state receives the declaration's parameters; the XML parser is given an unmodified copy of the buffer that element text is cut out of; <xi:include> saves and restores the reader fields the nested read overwrites.",
+             "per declaration in the start handler; a forward-referenced state receives the declaration's parameters; the XML parser is given an unmodified copy of the buffer that element text is cut out of; <xi:include> saves and restores the reader fields the nested read overwrites; list-valued attributes are split on XML white space.",
              "that the model mirrors the document for every document and rendering (an input/output equivalence over an infinite language).", "§5 C04"),
     "C05": C("WIRE: symbolic walk of every FsmWriter function and its FsmReader sibling into annotated operation sequences (K4), flag-table mapping, field coverage (K11), primitive tables and bit budgets (K4/K8)",
              "the 23 writer/reader pairs define the same wire grammar (operation kinds, model fields, loops, presence guards through the flag bits); the "
              "executable-content and Data variant dispatch tables agree; every field of the 16 persisted structs is written and read (or exempt with a reason); "
-             "integer type nibbles, thresholds and byte counts agree; every value fits the bits of its encoding (the guarding bound is a bound on the written value itself); the reader narrows no integer (struct fields and Data variant payloads).",
+             "integer type nibbles, thresholds and byte counts agree; every value fits the bits of its encoding (the guarding bound is a bound on the written value itself); the reader narrows no integer (struct fields and Data variant payloads); an Option<String> is NONE only when it is None.",
              "trace equality after reload (argued from identical persisted model + C02 determinism); Data values (delegated to to_string/parse).", "§5 C05"),
     "C06": C("custom HIR/MIR rules: dominance of history recording over removal (K2), filter and key provenance (K3), who-may-write historyValue (K1)",
              "history values are recorded from the configuration before anything is removed; deep/shallow filters and keys; the history branch of "
@@ -49,12 +50,12 @@ CHECKS = {
              "equality of restored and recorded configuration over histories.", "§5 C06"),
     "C07": C("custom HIR/MIR rules: guard shape of the final branch (K2/K3), reachability after running=false in the MIR CFG (K2), spec vocabulary coverage (K12)",
              "done.state.<parent> with evaluated donedata, done.state.<grandparent> iff parallel and every child region final, one enqueue each; running=false "
-             "only for a top-level final or the cancel event; nothing is selected/executed after running=false before the next loop test; exitInterpreter "
+             "only for a top-level final or the cancel event, running=true once and before the initial states are entered; nothing is selected/executed after running=false before the next loop test; exitInterpreter "
              "post-dominates; done.invoke addressing.",
              "'exactly once' counts over event histories.", "§5 C07"),
     "C08": C("custom HIR rules: sibling agreement of executeContent loops (K4), branch polarity (K2), error-discipline fixpoint over fallible/raising summaries (K2)",
              "content runs in Vec order and stops at the first false; if/else polarity; every call to a fallible evaluation API reaches an error-event enqueue on its "
-             "Err path (or hands the Err on); assign writes only occupied writable entries; foreach sets item/index before the body and a false body ends it with false; the reader never overwrites an If's else link.",
+             "Err path (or hands the Err on); assign writes only occupied writable entries; foreach sets item/index before the body and a false body ends it with false; the reader never overwrites an If's else link; the ECMAScript model restores strict mode on every path.",
              "which branch runs for given data (values).", "§5 C08"),
     "C09": C("custom HIR/MIR rules: sibling agreement of the three In() implementations and two set_event tables (K4), read-only installation and deep read-only (K2/K3), dominance in interpret/enterStates (K2)",
              "In() tests the live configuration; the seven _event fields are fed from the matching Event fields; system variables are installed read-only and "
